@@ -1,4 +1,4 @@
-// C02 known finding "mistyped-goto-unbound", second form (found by the random check, seed 1000 program 318):
+// C02 regression input: former finding "mistyped-goto-unbound" (repaired by 126604b), second form (found by the random check, seed 1000 program 318):
 // `goto q (..)` inside `label k { .. } : Nat` is annotated Nat although q : cns i64; the occurrence is not
 // removed at `label q`, the shared continuation of the conditional gets BOTH parameters `q: prd i64`
 // (the integer variable q) and `q: cns Nat`, and the call passes the integer variable q as consumer.
